@@ -671,6 +671,12 @@ func c14Sys(c *ctx, e *c14env, seeds []uint64) {
 				res.Fail("machinery", line, "unparsable meaning "+meaning[i], "c14-eff")
 				continue
 			}
+			// independent Go reading of scrapligo's own part of the command line: `-o EscapeChar=none`
+			// sits at positions 7,8, i.e. before the strict-key options and before any extra argument
+			// (C16's repair; not named by C14's statement, hence a correspondence finding)
+			if len(o.argv) < 9 || o.argv[7] != "-o" || o.argv[8] != "EscapeChar=none" {
+				res.Fail("correspondence", line, fmt.Sprintf("argv %q lacks `-o EscapeChar=none` at positions 7,8", o.argv), "c14-sys-escape-char-missing")
+			}
 			if bad := k.sysExpect(f); bad != "" {
 				res.Fail("oracle", line, fmt.Sprintf("ssh would not do what is configured (%s): argv %q means %s; configured host=%q port=%d user=%q strict=%v kh=%q cfg=%q key=%q",
 					bad, o.argv, meaning[i], k.host, k.port, k.user, k.strict, k.kh, k.cfg, k.key), "c14-argv-meaning-"+bad)
